@@ -4,6 +4,7 @@ arbitrary streams are *sampled* under ASan+UBSan+libstdc++ assertions)"""
 import os
 import re
 import struct
+import subprocess
 import sys
 from concurrent.futures import ThreadPoolExecutor
 
@@ -376,6 +377,8 @@ def warc_streams(rng, tier):
            ("warc-trunc-body", hdr(100) + b"short"), ("warc-huge-length", hdr(99999999999999999)), ("warc-length-overflow", hdr(2**63 - 1)),
            ("warc-length-garbage", b"WARC/1.0\r\nContent-Length: 12x\r\n\r\n"), ("warc-lf-only", b"WARC/1.0\nContent-Length: 2\n\nab\r\n\r\n"),
            ("warc-bad-trailer", hdr(2) + b"abXXXX"), ("warc-ok", tr.WARC1 + tr.WARC2)]
+    for cut in range(1, len(tr.WARC1)):
+        out.append(("warc-cut-%d" % cut, tr.WARC1[:cut]))
     for n in (1, 4, 5, 28, 29, 30, 31, 32, 33, 34, 35, 36, 37, 38, 40, 100):
         out.append(("warc-negative-%d" % n, hdr(-n)))
         out.append(("warc-negative-%d-more" % n, hdr(-n) + b"WARC/1.0\r\nContent-Length: 0\r\n\r\n\r\n\r\n"))
@@ -787,6 +790,228 @@ def part_faults_sanitized(c, bindir_san, hx):
                              SAN, op, k, eno, " ".join(t.argv("$BIN", "$W", "$HX")))})
 
 
+# ---------------------------------------------------------------------------
+# leaf parsers on every truncation of boundary inputs, flush against an inaccessible page
+
+def leaf_cases(c):
+    rng = c.rng
+    seqs = set()
+    for b in range(256):
+        seqs.add(bytes([b]))
+    for lead in list(range(0xc0, 0x100)):
+        for t1 in ([0x00, 0x41, 0x7f, 0x80, 0x8f, 0x90, 0x9f, 0xa0, 0xbf, 0xc0, 0xff] if c.tier == "quick" else range(256)):
+            seqs.add(bytes([lead, t1]))
+    for lead in range(0xe0, 0xf0):
+        for t1 in (0x7f, 0x80, 0x9f, 0xa0, 0xbf, 0xc0):
+            for t2 in (0x41, 0x7f, 0x80, 0xbf, 0xc0):
+                seqs.add(bytes([lead, t1, t2]))
+    for lead in range(0xf0, 0x100):
+        for t1 in (0x7f, 0x80, 0x8f, 0x90, 0xbf, 0xc0):
+            for t2 in (0x00, 0x80, 0xbf, 0xc0):
+                for t3 in (0x41, 0x80, 0xbf, 0xc0):
+                    seqs.add(bytes([lead, t1, t2, t3]))
+    lines = []
+    for sq in sorted(seqs):
+        for cut in range(1, len(sq) + 1):            # every truncation, at the very end of the readable memory
+            for pre in (b"", b"a", "é".encode(), "a😀".encode()):
+                lines.append("U " + (pre + sq[:cut]).hex())
+    lines.append("U -")
+    # base64: every truncation of encodings around the block boundaries, foreign bytes last
+    import base64 as pyb64
+    for n in range(0, 10):
+        e = pyb64.b64encode(bytes(rng.randrange(256) for _ in range(n)))
+        for cut in range(0, len(e) + 1):
+            lines.append("B " + (e[:cut].hex() or "-"))
+            for last in (0x3d, 0xff, 0x00, 0x7f, 0x2d):
+                lines.append("B " + (e[:cut] + bytes([last])).hex())
+    # field lists: every truncation of well-formed and hostile specifications
+    for spec in (b"1", b"1-", b"-3", b"1-3", b"1,3-5,7-", b"2-1", b"0", b"1,,2", b"99999999999999999999", b"1-2-3", b" 1", b"-", b",", b"1,", b"3-,1"):
+        for cut in range(0, len(spec) + 1):
+            lines.append("P " + (spec[:cut].hex() or "-"))
+    # RangeFields: lines that end inside / right after the selected fields
+    for ln in (b"a\tb\tc", b"a\tb\t", b"a\t\t", b"\t", b"", b"a", b"a\tb", b"\t\t\t", b"abc\tdef\tghi\tjkl"):
+        for cut in range(0, len(ln) + 1):
+            for spec in (b"1", b"2", b"2-", b"1,3", b"3-4", b"-2", b"4-"):
+                lines.append("F %s %s 09" % (ln[:cut].hex() or "-", spec.hex()))
+    return lines
+
+
+def part_leaf(c):
+    lines = leaf_cases(c)
+    for flavour, env in (("rel", None), (SAN, dict(os.environ, **SAN_ENV))):
+        exe = hx_bin("hx_leaf", flavour)
+        out, death = run_until_death(exe, lines, env=env)
+        if death:
+            first = [x for x in death[2].split("\n") if "ERROR" in x or "runtime error" in x or "Assertion" in x]
+            c.violation("leaf-parser-overread: %s on %s (input flush against an inaccessible page, %s build): %s" % (
+                {"U": "util::IsUTF8 / DecodeUTF8", "B": "base64_decode", "P": "ParseFields", "F": "RangeFields"}.get(death[0][:1], "parser"),
+                death[0][:100], flavour, (first or ["killed, status %s" % death[1]])[0][:200]),
+                {"harness": "hx_leaf", "case": death[0][:600], "flavour": flavour, "stderr": death[2][:1500]})
+            continue
+        c.cov["traces_validated_against_impl"] += len(out)
+        if flavour != "rel":
+            continue
+        for l, o in zip(lines, out):
+            c.count(l, bucket="leaf/" + l[:1])
+            if l.startswith("U "):
+                raw = bytes.fromhex(l[2:]) if l[2:] != "-" else b""
+                try:
+                    raw.decode("utf-8")
+                    want = "1"
+                except UnicodeDecodeError:
+                    want = "0"
+                if o.split()[0] != want:
+                    c.violation("utf8-validity-wrong: util::IsUTF8(%s) = %s, Unicode says %s" % (raw.hex(), o.split()[0], want), {"harness": "hx_leaf", "case": l, "impl": o})
+
+
+# ---------------------------------------------------------------------------
+# the same content through every backing of util::FilePiece: plain file (mmap), gzip / bzip2 file (read path), FIFO
+
+def part_backings(c, bindir_san, hx):
+    import bz2
+    import gzip
+    jobs = []
+    for t in tr.catalogue():
+        if t.kind == "wrapper":
+            continue
+        variants = [("baseline", {}, None)]
+        for fname in sorted(t.files):
+            variants += [("%s=gz" % fname, {fname: ("bytes", gzip.compress(t.files[fname]))}, None),
+                         ("%s=bz2" % fname, {fname: ("bytes", bz2.compress(t.files[fname]))}, None),
+                         ("%s=fifo" % fname, {fname: ("fifo", t.files[fname])}, None)]
+        if t.reads_stdin and t.kind != "iostream" or t.name in ("gigaword_unwrap", "order_independent_hash"):
+            variants += [("stdin=file", {}, ("file", t.stdin)), ("stdin=gz-file", {}, ("file", gzip.compress(t.stdin))),
+                         ("stdin=gz-pipe", {}, ("pipe", gzip.compress(t.stdin))), ("stdin=bz2-pipe", {}, ("pipe", bz2.compress(t.stdin)))]
+        for v in variants:
+            jobs.append((t, v))
+
+    def work(j):
+        t, (vname, repl, stdin_spec) = j
+        with tr.Scratch(SCRATCH, t) as w:
+            feeders = []
+            for fname, (kind, data) in repl.items():
+                path = os.path.join(w, fname)
+                os.unlink(path)
+                if kind == "bytes":
+                    open(path, "wb").write(data)
+                else:
+                    os.mkfifo(path)
+                    src = path + ".src"
+                    open(src, "wb").write(data)
+                    feeders.append(subprocess.Popen(["sh", "-c", "cat '%s' > '%s'" % (src, path)]))
+            env = dict(os.environ, **SAN_ENV)
+            try:
+                if stdin_spec and stdin_spec[0] == "file":
+                    sp = os.path.join(w, "stdin.bin")
+                    open(sp, "wb").write(stdin_spec[1])
+                    with open(sp, "rb") as f:
+                        rc, out, err = tr.run(t.argv(bindir_san, w, hx), timeout=TOOL_TIMEOUT, env=env, cwd=w, stdin_file=f)
+                else:
+                    rc, out, err = tr.run(t.argv(bindir_san, w, hx), stdin_spec[1] if stdin_spec else t.stdin, timeout=TOOL_TIMEOUT, env=env, cwd=w)
+            finally:
+                for f in feeders:
+                    f.kill()
+                    f.wait()
+            outs = {o: _slurp(os.path.join(w, o)) for o in t.outputs}
+            return j, rc, out, outs, err
+
+    with ThreadPoolExecutor(WORKERS) as ex:
+        results = list(ex.map(work, jobs))
+    base = {}
+    for (t, (vname, _, _)), rc, out, outs, err in results:
+        if vname == "baseline":
+            base[t.label] = (rc, out, outs)
+    for (t, (vname, repl, stdin_spec)), rc, out, outs, err in results:
+        if vname == "baseline":
+            continue
+        kind, detail = classify(rc, err)
+        c.count(("backing", t.label, vname), bucket="backing/%s/%s" % (vname.split("=")[1], kind))
+        rep = {"tool": t.label, "executable": t.name, "argv": t.argv("$BIN", "$W", "$HX"), "stdin_hex": hexs(t.stdin), "files_hex": {k_: hexs(v) for k_, v in t.files.items()},
+               "backing": vname, "status": rc, "report": detail or "differs from the plain-file run", "stream": "backing", "stderr_tail": err.decode("utf-8", "replace")[-500:],
+               "how": "same invocation as the catalogue entry, with %s (gz/bz2: the file content compressed; fifo: mkfifo + cat)" % vname}
+        if kind != "ok":
+            c.violation("%s: %s with %s: %s" % (kind, t.name, vname, detail), rep)
+        elif t.label in base and (tr.status_class(rc), out, outs) != (tr.status_class(base[t.label][0]), base[t.label][1], base[t.label][2]):
+            c.violation("backing-dependent-behaviour: %s with %s: status %s, %d bytes of output; with plain files: status %s, %d bytes" % (
+                t.name, vname, rc, len(out), base[t.label][0], len(base[t.label][1])), rep)
+
+
+# ---------------------------------------------------------------------------
+# substitute: structured lines with 4..8 tab-separated fields; every output line may only contain fields of its own
+# input line and values remembered from earlier lines with the same key
+
+def part_substitute(c, bindir_san, hx):
+    rng = c.rng
+    cases = []
+    for i in range(40 if c.tier == "quick" else 400):
+        nkeys = rng.randrange(1, 4)
+        lines = []
+        for ln in range(rng.randrange(2, 9)):
+            nf = rng.choice([4, 5, 6, 6, 6, 7, 8])
+            k = rng.randrange(nkeys)
+            f = ["s%d_%d" % (ln, j) for j in range(nf)]
+            if nf > 2:
+                f[2] = "K%d" % k
+            if nf > 3:
+                f[3] = "k%d" % k
+            if nf > 4:
+                f[4] = "V%d_%d" % (ln, k)
+            if nf > 5:
+                f[5] = "TAIL-OF-LINE-%d" % ln
+            lines.append("\t".join(f))
+        cases.append(("\n".join(lines) + "\n").encode())
+    # the layout that shows a dangling tail: a 6-field line, then a 5-field line with the same key; also with a megabyte in between
+    cases.append(b"s1\ts2\tK1\tK2\tV1\tTAIL-OF-LINE-ONE\nt1\tt2\tK1\tK2\tV2\n")
+    filler = b"".join(b"fa-%d\tfb-%d\tkey-%d\tkey2-%d\tvalue-%d-xxxxxxxxxxxxxxxx\tend\n" % (i, i, i, i, i) for i in range(30000))
+    cases.append(b"s1\ts2\tK1\tK2\tV1\tTAIL-OF-LINE-ONE\n" + filler + b"t1\tt2\tK1\tK2\tV2\n")
+    jobs = [(data, mode) for data in cases for mode in ("pipe", "file")]
+
+    def work(j):
+        data, mode = j
+        t = tr.Tool("substitute", [], data)
+        with tr.Scratch(SCRATCH, t) as w:
+            env = dict(os.environ, **SAN_ENV)
+            if mode == "file":
+                sp = os.path.join(w, "stdin.bin")
+                open(sp, "wb").write(data)
+                with open(sp, "rb") as f:
+                    rc, out, err = tr.run(t.argv(bindir_san, w, hx), timeout=TOOL_TIMEOUT, env=env, cwd=w, stdin_file=f)
+            else:
+                rc, out, err = tr.run(t.argv(bindir_san, w, hx), data, timeout=TOOL_TIMEOUT, env=env, cwd=w)
+            return j, rc, out, err
+
+    with ThreadPoolExecutor(WORKERS) as ex:
+        results = list(ex.map(work, jobs))
+    for (data, mode), rc, out, err in results:
+        kind, detail = classify(rc, err)
+        c.count(("substitute", data[:64], mode), bucket="substitute/%s/%s" % (mode, kind if kind != "ok" else ("accepted" if rc == 0 else "rejected")))
+        small = len(data) <= 4096
+        rep = {"tool": "substitute", "executable": "substitute", "argv": ["$BIN/substitute"], "stdin_hex": hexs(data) if small else None,
+               "stdin_desc": None if small else "6-field line, 30000 filler lines, 5-field line with the first line's key (see part_substitute)", "stdin_backing": mode,
+               "status": rc, "report": detail, "stream": "substitute-structured"}
+        if kind != "ok":
+            c.violation("%s: substitute on structured field counts (%s): %s" % (kind, mode, detail), rep)
+            continue
+        if rc != 0:
+            continue
+        ins = data.split(b"\n")[:-1]
+        outs_l = out.split(b"\n")[:-1]
+        if len(ins) != len(outs_l):
+            c.violation("substitute-output-lines: %d input lines, %d output lines" % (len(ins), len(outs_l)), rep)
+            continue
+        values = set()
+        for li, lo in zip(ins, outs_l):
+            allowed = set(li.split(b"\t")) | values | {b""}
+            foreign = [f for f in lo.split(b"\t") if f not in allowed]
+            if foreign:
+                c.violation("substitute-foreign-bytes: output line %r contains %r, which is neither a field of its input line %r nor a remembered value" % (
+                    lo[:80], foreign[0][:60], li[:80]), dict(rep, output_line=lo[:200].decode("latin1")))
+                break
+            f = li.split(b"\t")
+            if len(f) > 4:
+                values.add(f[4])
+
+
 def main(argv):
     c = Check("C20", argv)
     ok, blog = build_repo(["all"])
@@ -803,6 +1028,9 @@ def main(argv):
     kconst = {}
     phases = {}
     for name, fn in (("formatters+streams", lambda: part_formatters(c, drv, kconst)),
+                     ("leaf parsers at a page end", lambda: part_leaf(c)),
+                     ("file backings", lambda: part_backings(c, os.path.dirname(repo_bin("x", SAN)), os.path.dirname(hx_bin("x")))),
+                     ("substitute structured", lambda: part_substitute(c, os.path.dirname(repo_bin("x", SAN)), os.path.dirname(hx_bin("x")))),
                      ("sanitizer sampling", lambda: part_tools(c, os.path.dirname(repo_bin("x", SAN)), os.path.dirname(hx_bin("x")), os.path.dirname(repo_bin("x")))),
                      ("sanitizer under faults", lambda: part_faults_sanitized(c, os.path.dirname(repo_bin("x", SAN)), os.path.dirname(hx_bin("x")))),
                      ("memcheck", lambda: part_valgrind(c, os.path.dirname(repo_bin("x")), os.path.dirname(hx_bin("x")))),
